@@ -92,7 +92,8 @@ fn pass_2_internal(segment: &Segment, common_context: &CommonContext) -> Result<
         common_context.set_special("pc".to_string(), Expr::Const(cur_address as i64));
         match item {
             Item::Instruction(op, op_args) => {
-                if common_context.get_device().check_operation(op) {
+                let device = common_context.get_device();
+                if device.check_operation(op) && device.check_operands(op, op_args) {
                     let complete_op = match process(&op, &op_args, cur_address, common_context) {
                         Ok(ok) => ok,
                         Err(e) => bail!("{}, {}", e, line),
